@@ -59,7 +59,8 @@ EXTERNAL_RAISES: dict[str, set[str]] = {
     "datetime.timezone": {"ValueError"},
     "json.load": {"JSONDecodeError", "UnicodeDecodeError"},
     "json.loads": {"JSONDecodeError", "UnicodeDecodeError"},
-    "xml.etree.ElementTree.iterparse": {"ParseError"},
+    # expat also reports an unknown declared encoding as LookupError and a multi-byte one as a bare ValueError (raised while iterating)
+    "xml.etree.ElementTree.iterparse": {"ParseError", "LookupError", "ValueError"},
     "xml.etree.ElementTree.parse": {"ParseError"},
     "xml.etree.ElementTree.fromstring": {"ParseError"},
     "xml.etree.ElementInclude.include": {"ParseError", "FatalIncludeError", "OSError"},
@@ -267,6 +268,12 @@ class Origin:
     what: str
     via: "Origin | None" = None
 
+    def leaf(self) -> "Origin":
+        o = self
+        while o.via is not None:
+            o = o.via
+        return o
+
     def chain(self) -> list[str]:
         out = []
         o: Origin | None = self
@@ -274,6 +281,24 @@ class Origin:
             out.append(f"{o.func} @{o.site}: {o.what}")
             o = o.via
         return out
+
+
+MAX_ORIGINS = 6
+
+
+def _add(d: dict[str, list[Origin]], exc: str, o: Origin) -> bool:
+    """Record origin o for exc unless an origin with the same leaf is already known (or the cap is reached)."""
+    cur = d.setdefault(exc, [])
+    lf = o.leaf()
+    key = (lf.func, lf.what)
+    for x in cur:
+        xl = x.leaf()
+        if (xl.func, xl.what) == key:
+            return False
+    if len(cur) >= MAX_ORIGINS:
+        return False
+    cur.append(o)
+    return True
 
 
 class MayRaise:
@@ -292,7 +317,7 @@ class MayRaise:
         if extra_external:
             self.external.update(extra_external)
         self.skip_modules = skip_modules
-        self.sets: dict[str, dict[str, Origin]] = {}
+        self.sets: dict[str, dict[str, list[Origin]]] = {}  # func -> exc -> origins with distinct leaves (capped)
         self.unmodelled: set[str] = set()
         self._fx: dict[str, FuncExc] = {}
         self._effects: dict[str, list] = {}
@@ -329,28 +354,30 @@ class MayRaise:
                             out.append(sub.methods[n.attr])
         return out
 
-    def _call_raises(self, fi: FuncInfo, call: ast.Call, r: Resolved) -> dict[str, Origin]:
-        out: dict[str, Origin] = {}
+    def _call_raises(self, fi: FuncInfo, call: ast.Call, r: Resolved) -> dict[str, list[Origin]]:
+        out: dict[str, list[Origin]] = {}
         site = f"{fi.module.relpath}:{call.lineno}"
         for f in r.funcs:
             if f.module.name.startswith(self.skip_modules):
                 continue
             if f.is_abstract and r.by_name:
                 continue
-            for exc, org in self.sets.get(f.qual, {}).items():
-                out.setdefault(exc, Origin(fi.qual, site, f"call {unparse(call.func)}() -> {f.qual.split(':')[1]}", org))
+            for exc, orgs in self.sets.get(f.qual, {}).items():
+                for org in orgs:
+                    _add(out, exc, Origin(fi.qual, site, f"call {unparse(call.func)}() -> {f.qual.split(':')[1]}", org))
         for c in r.ctors:
             for f in self.res.ctor_funcs(c):
-                for exc, org in self.sets.get(f.qual, {}).items():
-                    out.setdefault(exc, Origin(fi.qual, site, f"construct {c.name}", org))
+                for exc, orgs in self.sets.get(f.qual, {}).items():
+                    for org in orgs:
+                        _add(out, exc, Origin(fi.qual, site, f"construct {c.name}", org))
         if (r.unresolved or not (r.funcs or r.ctors or r.externals)) and any(k.arg is None for k in call.keywords) \
                 and self._is_type_valued(fi, call.func):
             # dynamic construction with **kwargs of an unknown class: wrong/missing keyword -> TypeError
-            out.setdefault("TypeError", Origin(fi.qual, site, f"{unparse(call.func)}(**...) of a class known only at run time"))
+            _add(out, "TypeError", Origin(fi.qual, site, f"{unparse(call.func)}(**...) of a class known only at run time"))
         for d in r.externals:
             raises = self._external_raises(fi, call, d)
             for exc in raises:
-                out.setdefault(exc, Origin(fi.qual, site, f"external {d}({', '.join(unparse(a) for a in call.args[:2])})"))
+                _add(out, exc, Origin(fi.qual, site, f"external {d}({', '.join(unparse(a) for a in call.args[:2])})"))
         return out
 
     @staticmethod
@@ -398,7 +425,7 @@ class MayRaise:
             return set()
         return raises
 
-    def _filter(self, fi: FuncInfo, node: ast.AST, raised: dict[str, Origin]) -> dict[str, Origin]:
+    def _filter(self, fi: FuncInfo, node: ast.AST, raised: dict[str, list[Origin]]) -> dict[str, list[Origin]]:
         """Subtract what enclosing guards of ``node`` catch."""
         fx = self._fx.setdefault(fi.qual, FuncExc(fi))
         for g in fx.guards(node):
@@ -407,50 +434,58 @@ class MayRaise:
             raised = {e: o for e, o in raised.items() if not any(self.hier.catches(t, e) for t in g.types)}
         return raised
 
-    def _caught_by_handler(self, fi: FuncInfo, h: ast.ExceptHandler) -> dict[str, Origin]:
+    def _caught_by_handler(self, fi: FuncInfo, h: ast.ExceptHandler) -> dict[str, list[Origin]]:
         """Exceptions that may flow into handler h (for bare re-raise)."""
         fx = self._fx.setdefault(fi.qual, FuncExc(fi))
         par, _ = fx.parents[id(h)]
         assert isinstance(par, ast.Try)
         types = _handler_types(h)
-        body_raised: dict[str, Origin] = {}
+        body_raised: dict[str, list[Origin]] = {}
         for st in par.body:
             for sub in [st, *walk_no_nested(st)]:
-                body_raised.update(self._node_raises(fi, sub, inner_try=par))
+                for e, orgs in self._node_raises(fi, sub, inner_try=par).items():
+                    for o in orgs:
+                        _add(body_raised, e, o)
         return {e: o for e, o in body_raised.items() if any(self.hier.catches(t, e) for t in types)}
 
-    def _node_raises(self, fi: FuncInfo, n: ast.AST, inner_try: ast.Try | None = None) -> dict[str, Origin]:
+    def _node_raises(self, fi: FuncInfo, n: ast.AST, inner_try: ast.Try | None = None) -> dict[str, list[Origin]]:
         """Raw exceptions produced at node n (before guard subtraction beyond inner_try)."""
         site = f"{fi.module.relpath}:{getattr(n, 'lineno', 0)}"
-        out: dict[str, Origin] = {}
+        out: dict[str, list[Origin]] = {}
         if isinstance(n, ast.Raise):
             if n.exc is None:
                 fx = self._fx.setdefault(fi.qual, FuncExc(fi))
                 h = fx.enclosing_handler(n)
                 if h is not None:
-                    out.update(self._caught_by_handler(fi, h))
+                    for e, orgs in self._caught_by_handler(fi, h).items():
+                        for o in orgs:
+                            _add(out, e, o)
             else:
                 name = _exc_class_name(n.exc)
                 fx = self._fx.setdefault(fi.qual, FuncExc(fi))
                 h = fx.enclosing_handler(n)
                 if isinstance(n.exc, ast.Name) and h is not None and h.name == n.exc.id:
-                    out.update(self._caught_by_handler(fi, h))
+                    for e, orgs in self._caught_by_handler(fi, h).items():
+                        for o in orgs:
+                            _add(out, e, o)
                 elif name == "NotImplementedError" and (fi.is_abstract or self._all_subclasses_override(fi)):
                     pass
                 elif not self.infeasible(fi, n, name):
-                    out[name] = Origin(fi.qual, site, f"raise {name}")
+                    _add(out, name, Origin(fi.qual, site, f"raise {name}"))
         elif isinstance(n, ast.Assert):
             if not self.assert_ok(fi, n):
-                out["AssertionError"] = Origin(fi.qual, site, f"assert {unparse(n.test)[:60]}")
+                _add(out, "AssertionError", Origin(fi.qual, site, f"assert {unparse(n.test)[:60]}"))
         elif isinstance(n, ast.Call):
             r = self.res.resolve_call(fi, n)
-            for e, o in self._call_raises(fi, n, r).items():
+            for e, orgs in self._call_raises(fi, n, r).items():
                 if not self.infeasible(fi, n, e):
-                    out[e] = o
+                    for o in orgs:
+                        _add(out, e, o)
         elif isinstance(n, ast.Attribute) and isinstance(n.ctx, ast.Load):
             for m in self._property_targets(fi, n):
-                for e, o in self.sets.get(m.qual, {}).items():
-                    out.setdefault(e, Origin(fi.qual, site, f"property {n.attr}", o))
+                for e, orgs in self.sets.get(m.qual, {}).items():
+                    for o in orgs:
+                        _add(out, e, Origin(fi.qual, site, f"property {n.attr}", o))
         return out
 
     def _all_subclasses_override(self, fi: FuncInfo) -> bool:
@@ -475,18 +510,19 @@ class MayRaise:
                 raise RuntimeError("may-raise fixpoint did not converge")
             for f in reach:
                 cur = self.sets[f.qual]
-                new: dict[str, Origin] = {}
+                new: dict[str, list[Origin]] = {}
                 for n, kind, payload in self._function_effects(f):
                     raised = self._node_raises(f, n)
                     if raised:
                         raised = self._filter(f, n, raised)
-                        for e, o in raised.items():
-                            new.setdefault(e, o)
-                for e, o in new.items():
-                    if e not in cur:
-                        cur[e] = o
-                        changed = True
+                        for e, orgs in raised.items():
+                            for o in orgs:
+                                _add(new, e, o)
+                for e, orgs in new.items():
+                    for o in orgs:
+                        if _add(cur, e, o):
+                            changed = True
         self.rounds = rounds
 
-    def escaping(self, fi: FuncInfo) -> dict[str, Origin]:
+    def escaping(self, fi: FuncInfo) -> dict[str, list[Origin]]:
         return self.sets.get(fi.qual, {})
